@@ -348,23 +348,26 @@ class PreferenceProfile:
         Returns:
             PreferenceProfile: A PreferenceProfile object with condensed ballot list.
         """
-        weight_accumulator = {}
+        weight_accumulator: dict = {}
+        content_ballots: dict = {}
 
-        # weightless allows for id of ballots with matching ranking/scores
+        # group by the (ranking, scores) content itself; Ballot equality treats missing
+        # scores as a wildcard, so ballots cannot serve as dictionary keys here
         for ballot in self.ballots:
-            weightless_ballot = (
-                Ballot(ranking=ballot.ranking, weight=Fraction(0), scores=ballot.scores)
-                if ballot.scores
-                else Ballot(ranking=ballot.ranking, weight=Fraction(0))
+            content = (
+                ballot.ranking,
+                frozenset(ballot.scores.items()) if ballot.scores else None,
             )
-            if weightless_ballot not in weight_accumulator:
-                weight_accumulator[weightless_ballot] = Fraction(0)
+            if content not in weight_accumulator:
+                weight_accumulator[content] = Fraction(0)
+                content_ballots[content] = ballot
 
-            weight_accumulator[weightless_ballot] += ballot.weight
+            weight_accumulator[content] += ballot.weight
 
         new_ballot_list = [Ballot()] * len(weight_accumulator)
         i = 0
-        for ballot, weight in weight_accumulator.items():
+        for content, weight in weight_accumulator.items():
+            ballot = content_ballots[content]
             if ballot.scores:
                 new_ballot_list[i] = Ballot(
                     ranking=ballot.ranking, scores=ballot.scores, weight=weight
